@@ -127,7 +127,7 @@ pub fn generate(property: &str, seed: u64, tier: Tier) -> Plan {
         for k in 0..n {
             let at = xr.below(steps.len() as u64 + 1) as usize;
             steps.insert(at, json!({"op":"xcreate","slot":xr.below(n_slots),"folder":*xr.pick(&[0u64, 4, 4, 5]),"val":900_000 + seed % 1000 * 10 + k,
-                "size":xr.below(5),"label":xr.below(3),"tags":xr.below(8),"fav":false}));
+                "size":xr.below(5),"label":xr.below(3),"tags":xr.below(8),"fav":false,"attach":xr.below(3)}));
         }
         if xr.chance(1, 2) {
             let at = xr.below(steps.len() as u64 + 1) as usize;
